@@ -1058,6 +1058,10 @@ def gen_fn(d):
     head = ''
     if external:
         head = '#[verifier::external_body]\n'
+    for va in [x for x in o.get('vattr', '').split(';') if x]:
+        # verifier settings for this function only (loop_isolation, rlimit): no effect on the executable text
+        head += '#[verifier::%s]\n' % va
+        log.append(('VATTR', '', va))
     contract = d.contract.strip('\n')
     text = head + sigtext.rstrip() + '\n' + (contract + '\n' if contract.strip() else '') + body + '\n'
     meta = {
